@@ -34,23 +34,23 @@ Proof.
         destruct (S i - List.length (rev l))%nat as [|k] eqn:Ek; [lia|]. cbn in Hu. destruct k; discriminate.
 Qed.
 
-Lemma lex_state_sorted m src :
-  lr_outcome (lex (mkCfg true m) src) = None -> sorted_st (lr_state (lex (mkCfg true m) src)).
+Lemma lex_text_state_sorted m bb bc text :
+  lr_outcome (lex_text (mkCfg true m) bb bc text) = None -> sorted_st (lr_state (lex_text (mkCfg true m) bb bc text)).
 Proof.
-  unfold lex. cbn [dbg msep].
-  set (ml := main_loop _ m _).
-  assert (S0 : sorted_st (init src)) by (unfold sorted_st, init; destruct src as [|c r]; [exact I|destruct (c =? BOM); exact I]).
-  pose proof (run_sorted ml (init src) S0) as R1.
-  destruct (run true ml (init src)) as [det s1|site s1]; [|cbn; discriminate].
+  unfold lex_text. cbn [dbg msep].
+  match goal with |- context [run true ?p (init text)] => set (ml := p) end.
+  assert (S0 : sorted_st (init text)) by exact I.
+  pose proof (run_sorted ml (init text) S0) as R1.
+  destruct (run true ml (init text)) as [det s1|site s1]; [|cbn; discriminate].
   cbn [res_sorted] in R1. destruct det; [intros _; exact R1|].
   pose proof (run_sorted (finalize_lexing (S (S (N.to_nat (s_nmodes s1))))) s1 R1) as R2.
   destruct (run true (finalize_lexing _) s1); [intros _; exact R2|cbn; discriminate].
 Qed.
 
-Lemma into_detached_asc src s :
-  InvPos src s -> sorted_st s -> asc (b_toks (into_detached s)).
+Lemma detached_toks_asc text s :
+  InvPos text s -> sorted_st s -> asc (detached_toks s).
 Proof.
-  intros I D. unfold into_detached. cbn [b_toks].
+  intros I D. unfold detached_toks.
   destruct (match w_toks (s_buf s) with t :: _ => tt_eqb (t_type t) T_EOF | [] => false end).
   - apply desc_asc_rev. exact D.
   - apply desc_asc_rev. unfold sorted_st in D.
@@ -61,20 +61,31 @@ Proof.
     rewrite (ip_srclen _ _ I). exact Hb.
 Qed.
 
+Lemma asc_map_shift bb bc l : asc l -> asc (map (shift_tok bb bc) l).
+Proof.
+  intros H i t u Ht Hu. rewrite nth_error_map in Ht, Hu.
+  destruct (nth_error l i) as [t0|] eqn:E1; [|discriminate].
+  destruct (nth_error l (S i)) as [u0|] eqn:E2; [|discriminate].
+  cbn in Ht, Hu. inversion Ht; inversion Hu; subst. cbn [shift_tok t_byte].
+  pose proof (H i t0 u0 E1 E2). lia.
+Qed.
+
 Theorem lex_sorted_debug m src :
   lr_outcome (lex (mkCfg true m) src) = None -> asc (b_toks (lr_buffer (lex (mkCfg true m) src))).
 Proof.
-  intros H. destruct (lex_buffer_errors (mkCfg true m) src) as [-> _].
-  apply (into_detached_asc src); [apply lex_state_InvPos|apply lex_state_sorted; exact H].
+  unfold lex. destruct (split_bom src) as [[bb bc] text]. intros H.
+  destruct (lex_text_buffer_errors (mkCfg true m) bb bc text) as [-> _].
+  rewrite into_detached_toks. apply asc_map_shift.
+  apply (detached_toks_asc text); [apply lex_text_state_InvPos|apply lex_text_state_sorted; exact H].
 Qed.
 
-Lemma into_detached_last_eof s d0 :
-  t_type (last (b_toks (into_detached s)) d0) = T_EOF.
+Lemma into_detached_last_eof bb bc s d0 :
+  t_type (last (b_toks (into_detached bb bc s)) d0) = T_EOF.
 Proof.
-  unfold into_detached. cbn [b_toks].
-  destruct (w_toks (s_buf s)) as [|a l] eqn:E; cbn.
+  rewrite into_detached_toks. unfold detached_toks.
+  destruct (w_toks (s_buf s)) as [|a l] eqn:E; cbn -[len].
   - reflexivity.
   - destruct (tt_eqb (t_type a) T_EOF) eqn:Ea.
-    + cbn [rev]. rewrite last_last. apply tt_eqb_eq. exact Ea.
-    + cbn [rev]. rewrite last_last. reflexivity.
+    + cbn [rev]. rewrite map_app. cbn [map]. rewrite last_last. apply tt_eqb_eq. exact Ea.
+    + cbn [rev]. rewrite map_app. cbn [map]. rewrite last_last. reflexivity.
 Qed.
